@@ -15,6 +15,9 @@ def parseAtt (c : Char) : Option Att :=
 def parseScript (s : String) : Option (List Att) :=
   if s = "-" then some [] else s.toList.mapM parseAtt
 
+def parseSenses (s : String) : Option (List Bool) :=
+  if s = "-" then some [] else s.toList.mapM fun c => if c = '1' then some true else if c = '0' then some false else none
+
 def attLetter : Att × Bool → String
   | (.ans, m) => if m then "m" else "a"
   | (.flt f r, _) =>
@@ -30,7 +33,9 @@ def parseStep (s : String) : Option Step :=
     let cmd : Cmd := ⟨tok, isWriteTok tok⟩
     if a = "+" then some ⟨cmd, .ok⟩
     else if a = "~" then some ⟨cmd, .mute⟩
+    else if a = "n" then some ⟨cmd, .nak⟩
     else if a.startsWith "-" then (a.drop 1).toString.toNat?.map fun n => ⟨cmd, .refuse n⟩
+    else if a.startsWith "!" then (a.drop 1).toString.toNat?.map fun n => ⟨cmd, .once n⟩
     else none
   | _ => none
 
@@ -40,10 +45,11 @@ def parsePhases (s : String) : Option Phases :=
 
 def parseVal : String → Option Val
   | "none" => some .none | "false" => some .false_ | "true" => some .true_
-  | "ndef" => some .ndef | "unit" => some .unit | "list" => some .list | _ => none
+  | "ndef" => some .ndef | "unit" => some .unit | "list" => some .list | "data" => some .data | _ => none
 
 def showVal : Val → String
   | .none => "none" | .false_ => "false" | .true_ => "true" | .ndef => "ndef" | .unit => "unit" | .list => "list"
+  | .data => "data"
 
 def showOutcome : Outcome → String
   | .ok v => "ok " ++ showVal v
@@ -61,23 +67,61 @@ def parseCfg (s : String) : Option (Cfg × Bool) :=
   | [a, b, c, d, e, f] => some (⟨a = '1', b = '1', c = '1', d = '1', e = '1'⟩, f = '1')
   | _ => none
 
+def showFlags (w : World) : String :=
+  "g" ++ (if w.gone then "1" else "0") ++ " l" ++ (if w.lost then "1" else "0")
+
 def finish (r : Outcome × World) : String :=
-  showOutcome r.1 ++ " # " ++ showLog r.2.log ++ " # " ++ showApplied r.2.applied
+  showOutcome r.1 ++ " # " ++ showLog r.2.log ++ " # " ++ showApplied r.2.applied ++ " # " ++ showFlags r.2
+
+/-- `fam|op|v|phases` -/
+def parseProg (cfg : Cfg) (tlv : Bool) (nret : Nat) (s : String) : Option Prog :=
+  match s.splitOn "|" with
+  | [fam, op, v, phases] =>
+    match parseVal v, parsePhases phases with
+    | some v, some phs => prog cfg tlv fam op phs v nret
+    | _, _ => none
+  | _ => none
+
+/-- `uses/noneVal/clears/freshprog/cachedprog` -/
+def parseSOp (cfg : Cfg) (tlv : Bool) (nret : Nat) (s : String) : Option SOp :=
+  match s.splitOn "/" with
+  | [uses, nv, clears, f, c] =>
+    match parseVal nv, parseProg cfg tlv nret f, parseProg cfg tlv nret c with
+    | some nv, some f, some c => some ⟨uses = "1", nv, clears = "1", f, c⟩
+    | _, _, _ => none
+  | _ => none
+
+/-- the session, operation by operation, with the part of the logs each one has added -/
+def sessLines (cfg : Cfg) (read : Prog) : List SOp → Bool → World → List String
+  | [], _, w => ["end # " ++ showFlags w]
+  | o :: os, cached, w =>
+    let r := stepOp cfg read o cached w
+    let w' := r.2.2
+    (showOutcome r.1 ++ " # " ++ showLog (w'.log.drop w.log.length) ++ " # "
+        ++ showApplied (w'.applied.drop w.applied.length) ++ " # " ++ showFlags w')
+      :: sessLines cfg read os r.2.1 w'
 
 def handle (line : String) : String :=
   match line.splitOn " " with
-  | ["run", cfg, fam, op, v, nret, script, phases] =>
-    match parseCfg cfg, parseVal v, nret.toNat?, parseScript script, parsePhases phases with
-    | some (cfg, tlv), some v, some nret, some sc, some phs =>
+  | ["run", cfg, fam, op, v, nret, script, senses, phases] =>
+    match parseCfg cfg, parseVal v, nret.toNat?, parseScript script, parseSenses senses, parsePhases phases with
+    | some (cfg, tlv), some v, some nret, some sc, some se, some phs =>
       match prog cfg tlv fam op phs v nret with
-      | some p => finish (run cfg p 0 ⟨sc, [], []⟩)
+      | some p => finish (run cfg p 0 { script := sc, senses := se })
       | none => "no-program"
-    | _, _, _, _, _ => "bad-op"
+    | _, _, _, _, _, _ => "bad-op"
   | ["t3format", cfg, nmaxb, nbr, nbw, wipe, script] =>
     match parseCfg cfg, nmaxb.toNat?, nbr.toNat?, nbw.toNat?, parseScript script with
     | some (cfg, _), some a, some b, some c, some sc =>
-      finish (run cfg (t3Format cfg ⟨a, b, c⟩ (wipe = "1")) 0 ⟨sc, [], []⟩)
+      finish (run cfg (t3Format cfg ⟨a, b, c⟩ (wipe = "1")) 0 { script := sc })
     | _, _, _, _, _ => "bad-op"
+  | "sess" :: cfg :: nret :: script :: senses :: read :: ops =>
+    match parseCfg cfg, nret.toNat?, parseScript script, parseSenses senses with
+    | some (cfg, tlv), some nret, some sc, some se =>
+      match parseProg cfg tlv nret read, ops.mapM (parseSOp cfg tlv nret) with
+      | some read, some ops => " || ".intercalate (sessLines cfg read ops false { script := sc, senses := se })
+      | _, _ => "no-program"
+    | _, _, _, _ => "bad-op"
   | _ => "bad-op"
 
 def main : IO Unit := runDriver handle
